@@ -428,6 +428,18 @@ def gen_waves(rng):
             "measures": False}
 
 
+def gen_diffs(rng):
+    """slices with subtotal DIFFERENCES (kwargs.negative) on rows and columns of plain and dated categoricals and a
+    population: the population measures blank differences, the proportion measures they are built from must not
+    notice -- whichever is read first"""
+    kinds = rng.choice([["cat", "cat"], ["cat", "cat"], ["cat_date", "cat"], ["cat", "cat_date"], ["cat_date", "cat_date"],
+                        ["cat", "cat", "cat"], ["cat", "cat_date", "cat"]])
+    return {"t": "api", "kinds": kinds, "seed": rng.randrange(1 << 30), "nsched": rng.randint(6, 12),
+            "population": rng.choice([1000, 12345]), "min_base": 0, "with_set": False, "ncubes": 1,
+            "mrins": False, "holes": False, "numeric_all": rng.random() < 0.5, "no_missing": rng.random() < 0.7,
+            "diffs": True, "focus": "population", "pairwise": None, "measures": False}
+
+
 def gen_scale(rng):
     """cubes with numeric values on every category and NaN / null holes in the weighted count payload:
     the scale-mean / median / std-dev family reads (and rewrites?) the same cached count arrays"""
@@ -516,7 +528,22 @@ def api_build(case):
                 t["elements"] = {str(rng.choice(ids)): {"hide": True}}
             if rng.random() < 0.3:
                 t["order"] = {"type": "explicit", "element_ids": rng.sample(ids, len(ids)) + [999]}
-            if k in ("cat",) and (rng.random() < 0.5 or case.get("waves")) and len(ids) >= 2:
+            if case.get("diffs") and k in ("cat", "cat_date") and len(ids) >= 2:
+                valid = [c["id"] for c in v.cats if not c["missing"]]
+                a, b = valid[0], valid[-1]
+                ins = [{"anchor": rng.choice(["top", "bottom", a]), "name": "Diff", "function": "subtotal", "args": [a],
+                        "kwargs": {"positive": [a], "negative": [b]}}]
+                if rng.random() < 0.6:
+                    ins.append({"anchor": "bottom", "name": "Sum", "function": "subtotal", "args": valid[:2],
+                                "kwargs": {"positive": valid[:2]}})
+                if rng.random() < 0.4 and len(valid) >= 3:
+                    ins.append({"anchor": "top", "name": "Diff2", "function": "subtotal", "args": valid[:2],
+                                "kwargs": {"positive": valid[:2], "negative": valid[2:3]}})
+                if rng.random() < 0.5:
+                    for j, d in enumerate(ins):
+                        d["id"] = j + 1
+                t["insertions"] = ins
+            elif k in ("cat",) and (rng.random() < 0.5 or case.get("waves")) and len(ids) >= 2:
                 valid = [c["id"] for c in v.cats if not c["missing"]]
                 ins = [{"anchor": "bottom", "name": "Last only", "function": "subtotal", "args": [valid[-1]]},
                        {"anchor": rng.choice(["top", "bottom", ids[0]]), "name": "Sub", "function": "subtotal",
@@ -632,7 +659,7 @@ def eval_api(case, louts, ctx):
                 break
     # full sweeps: every property of a target read once in a random order on new objects, then in the REVERSE
     # order on other new objects -- between them every ordered pair (a read before b) occurs on one object
-    if nerr == 0:
+    if nerr == 0 and not case.get("waves"):       # (the wave cases are about re-use across cubes, see reuse_check)
         sweep_targets = [t for t in targets if "." in t and t.startswith("cube0")]
         if not case.get("focus"):
             sweep_targets = [rng.choice(sweep_targets)] if sweep_targets else []
@@ -645,10 +672,20 @@ def eval_api(case, louts, ctx):
                 names = [n for n in names if "scale" in n or n in ("counts", "means", "medians", "stddev", "sums", "rows_margin",
                                                                    "columns_margin", "table_proportions", "unweighted_counts",
                                                                    "rows_base", "smoothed_means")]
+            if case.get("focus") == "population" and "." in t:
+                keys = ("population", "proportion", "percentages", "std_err", "std_dev", "moe", "variances", "zscores",
+                        "pvals", "column_index", "share_sum", "counts", "margin")
+                names = [n for n in names if any(k in n for k in keys)]
             rng.shuffle(names)
             # ... and "a first, then everything else": an in-place edit of a shared cached array by `a` only shows
             # when nothing that caches values derived from that array was read before it
-            firsts = list(names) if case.get("focus") else rng.sample(names, min(6, len(names)))
+            if case.get("focus") == "population":
+                # every population_* property before every proportion-like one (and, through the forward / reverse
+                # sweeps and a few other firsts, the other way round)
+                firsts = [n for n in names if "population" in n]
+                firsts += rng.sample([n for n in names if n not in firsts], min(4, len(names) - len(firsts)))
+            else:
+                firsts = list(names) if case.get("focus") else rng.sample(names, min(6, len(names)))
             orders = [(names, "forward"), (names[::-1], "reverse")]
             for a in firsts:
                 rest = [n for n in names if n != a]
@@ -1005,14 +1042,16 @@ def eval_set(case, louts, ctx):
 def generate(ctx):
     rng = ctx.rng
     cases = []
-    for _ in range(ctx.n(650, 8000)):
+    for _ in range(ctx.n(600, 8000)):
         cases.append(gen_hist(rng))
-    for _ in range(ctx.n(110, 1700)):
+    for _ in range(ctx.n(90, 1500)):
         cases.append(gen_api(rng))
-    for _ in range(ctx.n(60, 600)):
+    for _ in range(ctx.n(35, 500)):
         cases.append(gen_scale(rng))
-    for _ in range(ctx.n(40, 500)):
+    for _ in range(ctx.n(25, 400)):
         cases.append(gen_waves(rng))
+    for _ in range(ctx.n(12, 300)):
+        cases.append(gen_diffs(rng))
     for _ in range(ctx.n(80, 600)):
         cases.append(dict(gen_api(rng), t="forms"))
     for _ in range(ctx.n(120, 900)):
